@@ -8,10 +8,16 @@ package main
 
 import (
 	"bufio"
+	"bytes"
 	"encoding/hex"
 	"fmt"
 	"os"
+	"os/exec"
 	"strconv"
+	"strings"
+	"sync"
+	"syscall"
+	"time"
 )
 
 // RNG is a splitmix64 generator: every random choice derives from VERIF_SEED.
@@ -58,23 +64,35 @@ func hx(b []byte) string {
 	return hex.EncodeToString(b)
 }
 
-// Out is the line sink. With only >= 0 just that line index is printed (replay).
+// Out is the line sink. With only >= 0 just that line index is printed (replay); indices below
+// start are skipped (a guarded run resumed after a case that killed the process).
 type Out struct {
-	w    *bufio.Writer
-	n    int
-	only int
+	mu    sync.Mutex
+	w     *bufio.Writer
+	n     int
+	only  int
+	start int
+	each  bool // flush after every line
 }
 
+// WantAt reports whether line index i will be printed.
+func (o *Out) WantAt(i int) bool { return (o.only < 0 || o.only == i) && i >= o.start }
+
 func (o *Out) Line(format string, args ...any) {
-	if o.only < 0 || o.only == o.n {
+	if o.WantAt(o.n) {
+		o.mu.Lock()
 		fmt.Fprintf(o.w, format, args...)
 		o.w.WriteByte('\n')
+		if o.each {
+			o.w.Flush()
+		}
+		o.mu.Unlock()
 	}
 	o.n++
 }
 
 // Want reports whether the next line will be printed (lets generators skip expensive work).
-func (o *Out) Want() bool { return o.only < 0 || o.only == o.n }
+func (o *Out) Want() bool { return o.WantAt(o.n) }
 
 // allStrings enumerates all strings over alphabet with length <= maxLen.
 func allStrings(alphabet []byte, maxLen int) [][]byte {
@@ -113,8 +131,129 @@ func main() {
 	if len(os.Args) > 4 {
 		only, _ = strconv.Atoi(os.Args[4])
 	}
+	inner := os.Getenv("VERIF_SHARD") != "" || os.Getenv("VERIF_C11_CHILD") != ""
+	if os.Getenv("VERIF_GUARDED") == "" && !inner {
+		guardParent(only)
+		return
+	}
+	// no case may eat the machine's memory (a runaway loop in the code under test)
+	lim := syscall.Rlimit{Cur: 8 << 30, Max: 8 << 30}
+	syscall.Setrlimit(syscall.RLIMIT_AS, &lim)
 	w := bufio.NewWriterSize(os.Stdout, 1<<20)
 	out := &Out{w: w, only: only}
+	if !inner {
+		out.start, _ = strconv.Atoi(os.Getenv("VERIF_START"))
+		out.each = os.Getenv("VERIF_CAREFUL") == "1"
+		go func() {
+			for range time.Tick(500 * time.Millisecond) {
+				out.mu.Lock()
+				w.Flush()
+				out.mu.Unlock()
+			}
+		}()
+	}
 	fn(os.Args[2], seed, out)
+	out.mu.Lock()
 	w.Flush()
+	out.mu.Unlock()
+}
+
+// guardParent runs the property's generator in a child process and copies its lines. When the
+// child dies (panic in a goroutine, fatal error, out of memory) or prints nothing for a long time
+// (a loop that never ends), the case it was working on is pinned down by re-running from the last
+// line received with a flush after every line; in its place the parent prints
+//
+//	<model> guard-crash <crash|oom|hang> index=<i> why=<first fatal line>
+//
+// and the run continues after it. After 4 such cases the run stops.
+func guardParent(only int) {
+	stall := 150 * time.Second
+	model := strings.ToLower(os.Args[1])
+	w := bufio.NewWriterSize(os.Stdout, 1<<20)
+	defer w.Flush()
+	start, careful, crashes := 0, false, 0
+	for {
+		cmd := exec.Command(os.Args[0], os.Args[1:]...)
+		cmd.Env = append(os.Environ(), "VERIF_GUARDED=1", fmt.Sprintf("VERIF_START=%d", start),
+			"GOTRACEBACK=single")
+		if careful {
+			cmd.Env = append(cmd.Env, "VERIF_CAREFUL=1")
+		}
+		var stderr bytes.Buffer
+		cmd.Stderr = &stderr
+		stdout, err := cmd.StdoutPipe()
+		if err != nil || cmd.Start() != nil {
+			fmt.Fprintln(os.Stderr, "guard: cannot start the child")
+			os.Exit(3)
+		}
+		lines := make(chan string, 1024)
+		go func() {
+			sc := bufio.NewScanner(stdout)
+			sc.Buffer(make([]byte, 1<<20), 1<<28)
+			for sc.Scan() {
+				lines <- sc.Text()
+			}
+			close(lines)
+		}()
+		got, hung := 0, false
+	loop:
+		for {
+			select {
+			case l, ok := <-lines:
+				if !ok {
+					break loop
+				}
+				w.WriteString(l)
+				w.WriteByte('\n')
+				got++
+			case <-time.After(stall):
+				hung = true
+				cmd.Process.Kill() // our own child
+				break loop
+			}
+		}
+		if hung {
+			for range lines {
+			}
+		}
+		werr := cmd.Wait()
+		if werr == nil && !hung {
+			os.Stderr.Write(stderr.Bytes())
+			return
+		}
+		if only >= 0 && got > 0 {
+			return
+		}
+		if !careful && only < 0 {
+			start += got
+			careful = true
+			continue
+		}
+		idx := start + got
+		if only >= 0 {
+			idx = only
+		}
+		kind, why := "crash", ""
+		for _, l := range strings.Split(stderr.String(), "\n") {
+			if strings.HasPrefix(l, "panic:") || strings.HasPrefix(l, "fatal error:") || strings.HasPrefix(l, "runtime: out of memory") {
+				why = l
+				break
+			}
+		}
+		if hung {
+			kind, why = "hang", fmt.Sprintf("no output for %s", stall)
+		} else if strings.Contains(stderr.String(), "out of memory") || strings.Contains(stderr.String(), "cannot allocate") {
+			kind = "oom"
+		}
+		why = strings.ReplaceAll(strings.TrimSpace(why), " ", "_")
+		if len(why) > 200 {
+			why = why[:200]
+		}
+		fmt.Fprintf(w, "%s guard-crash %s index=%d why=%s\n", model, kind, idx, why)
+		crashes++
+		if only >= 0 || crashes >= 4 {
+			return
+		}
+		start, careful = idx+1, false
+	}
 }
